@@ -65,7 +65,7 @@ ENGINES.append({"name": "E6-ref", "path": "internal/ref/*", "serves_properties":
 
 TXNOTE = E3NOTE + "; per-transaction attribution uses decoded snapshots of the working stores taken before and after every DeliverTx (the deliver context writes straight into them)"
 ENGINES[-2]["serves_properties"] += ["C14", "C15", "C18"]
-claim("C18", "E3-chain", "exploration", "per-transaction pre/post state oracle over generated sends (boundary amounts, recipient classes) on the real app",
+claim("C18", "E3-chain", "exploration", "per-transaction pre/post state oracle over generated sends (boundary amounts, recipient classes incl. addresses one byte longer/shorter than an existing account) on the real app",
       "hundreds of generated send transactions per run with amounts at and around the sender's balance, to existing/new/self/module recipients; every balance change of every account compared with the allowed delta sets, other stores must stay untouched, post-state canonical; held-on-observed",
       TXNOTE, "DESIGN.md §4 C18")
 claim("C14", "E3-chain", "exploration", "per-transaction pre/post state oracle over the tx matrix (message type x signer relation x signature defect), generator-labelled authorization",
@@ -142,7 +142,7 @@ ENGINES[-3]["serves_properties"] += ["C37", "C43"]
 claim("C37", "E3-chain", "exploration", "reference-schedule monitor on the codec activation predicates probed inside the node after every block + restart twin (fresh OS process over the same on-disk DBs vs never-restarted process)",
       "generated sequences of upgrade messages (feature-only, version upgrades carrying features, duplicates, re-scheduling, non-owner) on the mainnet-style bootstrap; every predicate value on a height grid and the stored gov/upgrade parameter compared with a reference schedule; the node is ended at a PRNG-chosen height and a new process must derive the same heights/schedule and continue with identical app hashes; held-on-observed; five known findings share one root cause (message delivered below the derived codec-upgrade height)",
       E3NOTE + "; chain heights stay far below 30024, where the codec-upgrade height is derived rather than constant", "DESIGN.md §4 C37")
-claim("C43", "E3-chain", "exploration", "export/import round-trip monitor: decoded exported genesis vs decoded live stores, validated by the app's own validators, the exported document decoded with the modules' own genesis decoders and compared record by record, then a new process initialised from it (every observed refusal class keyed separately)",
+claim("C43", "E3-chain", "exploration", "export/import round-trip monitor: decoded exported genesis vs decoded live stores (accounts, nodes, applications, claims and every stored parameter value), validated by the app's own validators, the exported document decoded with the modules' own genesis decoders and compared record by record, then a new process initialised from it (every observed refusal class keyed separately)",
       "chaos histories (stake/unstake/jail/slash/param changes/DAO) exported at PRNG-chosen heights: every account, validator (incl. jailed/unstaking), application, parameter, signing info and claim of the live state must appear in the export and vice versa, module ValidateGenesis must accept it, and an importer process fed the same following blocks must report the same record-level state transitions; held-on-observed; two known findings (importer exits)",
       E3NOTE, "DESIGN.md §4 C43")
 ENGINES[-3]["serves_properties"] += ["C31", "C32"]
